@@ -54,8 +54,37 @@ def run(ctx):
             if k not in seen:
                 seen.add(k)
                 hists.append(t)
+    # long histories (hundreds to thousands of materialised nodes): sparse far-apart leaves at depth 32 / 20, dense consecutive leaves at depth 12.
+    # The structure's behaviour may depend on how much has been allocated so far (slabs, caches, growth boundaries), which no short history reaches.
+    import random
+    longs = [(32, "sparse", 80, 70, s) for s in range(2 if ctx.quick else 6)] + [(12, "dense", 640, 400, 0)]
+    if not ctx.quick:
+        longs += [(20, "sparse", 120, 110, 1), (12, "dense", 1100, 1500, 1), (10, "dense", 1024, 1200, 2)]
+
+    def gen_long(spec):
+        d, kind, ncand, ops, k = spec
+        r = random.Random("c18-long/%s/%s" % (ctx.seed, spec))
+        ps = set()
+        if kind == "sparse":
+            while len(ps) < ncand:
+                ps.add(tuple(r.randrange(2) for _ in range(d)))
+        else:
+            base = r.randrange(0, 2 ** d - ncand + 1) if 2 ** d > ncand else 0
+            ps = {tuple((i >> (d - 1 - b)) & 1 for b in range(d)) for i in range(base, min(2 ** d, base + ncand))}
+        files = {"TreeRun.tla": "---- MODULE TreeRun ----\nEXTENDS PoseidonTree\nCandsDef == {%s}\n====\n" % ", ".join("<<" + ",".join(map(str, q)) + ">>" for q in sorted(ps))}
+        c = cfg(d, ops, cands="def").replace("INVARIANTS " + INV, "INVARIANTS RootIsRecomputation ProofAuthenticates")
+        rr = ctx.tlc("TreeRun", c, files=files, label="PoseidonTree long %s history depth=%d ops=%d" % (kind, d, ops), simulate="num=1", depth=ops + 1, workers=1, timeout=2400, heap="8g")
+        if len(rr["traces"]) != 1 or len(rr["traces"][0]["ops"]) != ops:
+            raise Infra("long history %s: TLC produced %d traces" % (spec, len(rr["traces"])))
+        return rr["traces"][0]
+
+    with ThreadPoolExecutor(6) as ex:
+        long_hists = list(ex.map(gen_long, longs))
+    ctx.cov["long_histories"] = [dict(depth=s[0], kind=s[1], candidate_leaves=s[2], ops=s[3]) for s in longs]
     nproc = 8
-    chunks = [hists[i::nproc] for i in range(nproc)]
+    chunks = [hists[i::nproc] for i in range(nproc)] + [[h] for h in long_hists]
+    hists = hists + long_hists
+    nproc = len(chunks)
     with ThreadPoolExecutor(nproc) as ex:
         results = list(ex.map(lambda ch: ctx.run_vh(["c18"], dict(histories=ch), timeout=3000) if ch else [], chunks))
     n = 0
@@ -110,7 +139,7 @@ def run(ctx):
     ctx.cov["spec_histories_replayed"] = n
     ctx.cov["recorded_traces_validated"] = validated
     ctx.cov["rule"] = ("every history of <= MaxOps updates over all leaves and values {0,a,b} at depth 1..3 (exhaustive) and simulated histories over candidate paths at "
-                       "depth 8..32 are applied to the real PoseidonTree: Root() and every proof element must equal the interpretation of the spec's terms after every "
+                       "depth 8..32, and long histories (70 far-apart leaves at depth 32, 400+ consecutive leaves at depth 12; thousands of nodes) are applied to the real PoseidonTree: Root() and every proof element must equal the interpretation of the spec's terms after every "
                        "step; seeded random histories recorded from the real tree at depths up to 32 are validated by TraceTree.tla with the real Poseidon")
 
 
